@@ -6,6 +6,7 @@
 use h_common::{tool_error, Args};
 
 mod ranges;
+mod store;
 
 fn main() {
     let args = Args::from_env();
@@ -15,6 +16,7 @@ fn main() {
     match (mode.as_str(), model.as_str()) {
         ("replay", "ranges") => ranges::replay(&args),
         ("record", "ranges") => ranges::record(&args),
+        ("record", "store") => store::record(&args),
         _ => tool_error(&format!("unknown mode/model {mode}/{model}")),
     }
 }
